@@ -10,6 +10,7 @@ import (
 	"net"
 	"net/netip"
 	"reflect"
+	"slices"
 	"strconv"
 	"sync"
 	"time"
@@ -363,6 +364,11 @@ func (a *Agent) gatherCandidatesLocal(ctx context.Context, networkTypes []Networ
 			}
 
 			for network := range networks {
+				// A list such as [udp4, tcp6] enables neither udp6 nor tcp4.
+				if nt, ntErr := determineNetworkType(network, mappedIP); ntErr != nil || !slices.Contains(networkTypes, nt) {
+					continue
+				}
+
 				type connAndPort struct {
 					conn net.PacketConn
 					port int
